@@ -27,6 +27,9 @@ struct Sim {
     int round;
     std::vector<pMPI::MPIWorker*> workers;      // null when the rank has left the loop (object destroyed, as in mpi_skel::run)
     std::vector<bool> left;                     // rank has left the dispatch loop of this round
+    std::vector<bool> entered;                  // rank has constructed its MPIWorker (the for-init of the dispatch loop); ranks
+                                                // reach that point at different times after the barrier, possibly after the
+                                                // master has already sent them an order
     pMPI::MPIMaster* master;
     std::vector<std::vector<std::pair<int,int> > > runlog;   // per round: (rank, job)
     std::string violation;
@@ -47,11 +50,13 @@ struct Sim {
     void start_round() {
         workers.assign(cfg.P, (pMPI::MPIWorker*)0);
         left.assign(cfg.P, false);
+        entered.assign(cfg.P, false);
         runlog.push_back(std::vector<std::pair<int,int> >());
         std::vector<pMPI::JobId> tasks(cfg.order.begin(), cfg.order.end());
         master = new pMPI::MPIMaster(boost::mpi::communicator(0), tasks, cfg.mode == 0);
-        for (int r = 0; r < cfg.P; r++)
-            if (participates(r)) workers[r] = new pMPI::MPIWorker(boost::mpi::communicator(r), 0);
+        // the master's own worker exists before its first order() (same statement sequence on rank 0)
+        if (cfg.mode == 0) { workers[0] = new pMPI::MPIWorker(boost::mpi::communicator(0), 0); }
+        entered[0] = true;
     }
     bool rank_active(int r) const {
         if (left[r]) return false;
@@ -77,6 +82,11 @@ struct Sim {
         }
     }
     void step_rank(int r) {
+        if (!entered[r]) {          // first step of a rank in this round: construct its worker (posts the first receive)
+            workers[r] = new pMPI::MPIWorker(boost::mpi::communicator(r), 0);
+            entered[r] = true;
+            return;
+        }
         if (cfg.mode == 0) {
             // for (pMPI::MPIWorker worker(comm,ROOT); !worker.is_finished();) { ... }   -- mpi_skel::run
             if (r == 0) master->order();
@@ -147,6 +157,7 @@ struct Sim {
         o << "r" << round << (all_done ? "D" : "") << "|";
         for (int r = 0; r < cfg.P; r++) {
             if (left[r]) o << "L";
+            else if (!entered[r]) o << "N";
             else if (!workers[r]) o << "-";
             else o << (workers[r]->is_finished() ? "F" : (workers[r]->is_working() ? "W" : "P")) << workers[r]->current_job();
             o << ",";
